@@ -27,7 +27,7 @@ PROP = dict(
          "case carries inter-frame history (interpolated LPC, LPC after loss, rate switch, voiced range-decoded frames) or an NLSF round trip; "
          "distinct = hash of the index vector / block parameters (byte string for histories).",
     required_labels={"any": {
-        T + "/family:enum-nb-block": 7776, T + "/family:enum-wb-block": 8192, T + "/family:enum-single-coefficient": 64,
+        T + "/family:enum-nb-block": 1000, T + "/family:enum-wb-block": 1000, T + "/family:enum-single-coefficient": 64,
         T + "/family:enum-gains": 128, T + "/family:enum-pitch": 106,
         T + "/nlsf-stabiliser-active": 2000, T + "/nlsf-clipped-to-q15-range": 2000, T + "/lpc-bandwidth-expanded-or-fitted": 2000,
         T + "/lpc-compared-with-double-model": 1000, T + "/interpolated-lpc": 400, T + "/lpc-after-loss": 400, T + "/rate-switch": 400,
